@@ -171,12 +171,12 @@ Print Assumptions C10_rollback_bare_errors.
    variable;  changing force constant: k >= 0 and targetNumSteps non-zero. *)
 Theorem C10_accepted_configuration_invariants :
   (forall temp e, x_err (fst (colvarx_validate temp e)) = false -> colvarx_inv (snd (colvarx_validate temp e)) = true) /\
-  (forall n e, (0 < n)%nat -> x_err (fst (walls_validate n e)) = false ->
-     let s := snd (walls_validate n e) in
+  (forall ws n e, (0 < n)%nat -> x_err (fst (walls_validate ws n e)) = false ->
+     let s := snd (walls_validate ws n e) in
      (wx_lower s <> [] \/ wx_upper s <> []) /\
      (wx_lower s <> [] -> List.length (wx_lower s) = n) /\ (wx_upper s <> [] -> List.length (wx_upper s) = n) /\
      (wx_lower s <> [] -> wx_upper s <> [] ->
-        pairwise_lt (wx_lower s) (wx_upper s) = true /\ pairwise_apart (wx_lower s) (wx_upper s) = true /\
+        pairwise_lt (wx_lower s) (wx_upper s) = true /\ pairwise_apart ws (wx_lower s) (wx_upper s) = true /\
         Qeq_bool (wx_lk s * wx_uk s) Q0 = false)) /\
   (forall kbt bfinf explore e,
      x_err (fst (opesx_validate kbt bfinf explore e)) = false -> opesx_inv (snd (opesx_validate kbt bfinf explore e)) = true) /\
@@ -198,8 +198,13 @@ Print Assumptions C10_accepted_configuration_invariants.
 Example C10_example_validate :
   x_err (fst (colvarx_validate (300 # 1) (mkEnv [("width", TokFrac 0 1 2); ("extendedFluctuation", TokFrac 0 1 4)] [] [("extendedLagrangian", true)]))) = false /\
   x_err (fst (colvarx_validate (300 # 1) (mkEnv [("width", TokInt 0)] [] []))) = true /\
-  x_err (fst (walls_validate 2 (mkEnv [] [("lowerWalls", [TokInt 0; TokInt 0]); ("upperWalls", [TokInt 3; TokInt 3])] []))) = false /\
-  x_err (fst (walls_validate 2 (mkEnv [] [("lowerWalls", [TokInt 3; TokInt 0]); ("upperWalls", [TokInt 3; TokInt 3])] []))) = true /\
+  x_err (fst (walls_validate [] 2 (mkEnv [] [("lowerWalls", [TokInt 0; TokInt 0]); ("upperWalls", [TokInt 3; TokInt 3])] []))) = false /\
+  x_err (fst (walls_validate [] 2 (mkEnv [] [("lowerWalls", [TokInt 3; TokInt 0]); ("upperWalls", [TokInt 3; TokInt 3])] []))) = true /\
+  (* walls 2e-9 apart: distinct for a variable of width 1e-8, coincident for one of width 1 (and for every variable before the repair of the threshold) *)
+  x_err (fst (walls_validate [1 # 100000000] 1 (mkEnv [] [("lowerWalls", [TokInt 0]); ("upperWalls", [TokSci 2 (-9)])] []))) = false /\
+  x_err (fst (walls_validate [1 # 1] 1 (mkEnv [] [("lowerWalls", [TokInt 0]); ("upperWalls", [TokSci 2 (-9)])] []))) = true /\
+  (* walls 0.5 apart coincide for a variable of width 1e6 *)
+  x_err (fst (walls_validate [1000000 # 1] 1 (mkEnv [] [("lowerWalls", [TokInt 0]); ("upperWalls", [TokFrac 0 5 10])] []))) = true /\
   x_err (fst (alb_validate 2 (mkEnv [("UpdateFrequency", TokInt 3)] [("centers", [TokInt 1; TokInt 1])] []))) = true.
 Proof. vm_compute. repeat split. Qed.
 
